@@ -1076,9 +1076,10 @@ def _pool(name, avg):
     def make(g):
         r = g.rng
         kh, kw = r.range(1, 3), r.range(1, 3)
-        h, w = r.range(kh, 6), r.range(kw, 6)
+        big = r.chance(1, 3)
+        h, w = r.range(kh, 12 if big else 6), r.range(kw, 12 if big else 6)
         x = g.pick(dt=F, shape=(r.range(1, 2), r.range(1, 3), h, w))
-        strides = [r.range(1, 2), r.range(1, 2)]
+        strides = [r.range(1, 3 if big else 2), r.range(1, 3 if big else 2)]
         pads = [0, 0, 0, 0] if r.bool() else [min(r.range(0, 1), kh - 1), min(r.range(0, 1), kw - 1), min(r.range(0, 1), kh - 1), min(r.range(0, 1), kw - 1)]
         attrs = {"kernel_shape": [kh, kw]}
         if strides != [1, 1] or r.bool():
@@ -1086,14 +1087,26 @@ def _pool(name, avg):
         if any(pads):
             attrs["pads"] = pads
         cip = 0
-        if avg and any(pads) and r.bool():
+        ceil_mode = 1 if r.chance(1, 3) else 0
+        if ceil_mode:
+            attrs["ceil_mode"] = 1
+        if avg and any(pads) and r.bool() and not ceil_mode:
             cip = 1
             attrs["count_include_pad"] = 1
 
+        def out_size(n_in, p0, p1, k, s):
+            if not ceil_mode:
+                return (n_in + p0 + p1 - k) // s + 1
+            o = -((n_in + p0 + p1 - k) // -s) + 1
+            # the last window must start inside the input or its begin padding
+            if (o - 1) * s >= n_in + p0:
+                o -= 1
+            return o
+
         def ref(x):
             n, c, h_, w_ = x.shape
-            oh = (h_ + pads[0] + pads[2] - kh) // strides[0] + 1
-            ow = (w_ + pads[1] + pads[3] - kw) // strides[1] + 1
+            oh = out_size(h_, pads[0], pads[2], kh, strides[0])
+            ow = out_size(w_, pads[1], pads[3], kw, strides[1])
             if oh <= 0 or ow <= 0:
                 raise Invalid("empty")
             out = np.zeros((n, c, oh, ow), dtype=np.float64)
@@ -1239,7 +1252,8 @@ def mk_einsum(g):
 @op("Resize", tol="math")
 def mk_resize(g):
     r = g.rng
-    x = g.pick(dt=F, shape=(1, r.range(1, 2), r.range(1, 4), r.range(1, 4)))
+    # Channel counts on both sides of 4 and 8: kernels process channels in groups.
+    x = g.pick(dt=F, shape=(r.range(1, 2), r.choose([1, 2, 3, 4, 5, 8, 9]), r.range(1, 4), r.range(1, 4)))
     mode = r.choose(["nearest", "linear"])
     h, w = x.shape[2], x.shape[3]
     oh, ow = r.range(1, 7), r.range(1, 7)
